@@ -3,6 +3,7 @@ A module that exposes a useful method (`timeout`) that can execute a
 function asynchronously and terminiate if it exceeds a given `duration`.
 """
 
+import os
 import sys
 import time
 
@@ -14,6 +15,23 @@ try:
     import ctypes
 except BaseException:
     ctypes = None
+
+
+# Verification hook (off unless PEDAL_EDU_PEDAL_VERIF=1 and a callback is installed):
+# lets an external checker hold the grader thread and the interrupted student thread at
+# the points where they touch shared sandbox state, to force each ordering.
+_verif_callback = None
+
+
+def set_verif_callback(callback):
+    """ Install (or with None remove) the verification callback. """
+    global _verif_callback
+    _verif_callback = callback
+
+
+def _verif_sync(point):
+    if _verif_callback is not None and os.environ.get('PEDAL_EDU_PEDAL_VERIF') == '1':
+        _verif_callback(point)
 
 
 class InterruptableThread(threading.Thread):
@@ -88,6 +106,7 @@ def timeout(duration, func, *args, **kwargs):
 
     if target_thread.is_alive():
         target_thread.terminate()
+        _verif_sync('after_terminate')
         timeout_exception = TimeoutError('Your code took too long to run '
                                          '(it was given {} seconds); '
                                          'maybe you have an infinite loop?'.format(duration))
